@@ -36,7 +36,7 @@ import (
 //@   ensures[C17] err == nil ==> failed == old(failed)
 //@   ensures[C03] err == nil && !readFailed ==> hasRole(old(St), seq(vmInput.CallerAddr), seq(vmInput.Arguments[0]), "ESDTRoleLocalMint")
 //@   ensures[C02] err == nil && !readFailed ==> val(St, seq(vmInput.CallerAddr), Kesdt(seq(vmInput.Arguments[0]))) == val(old(St), seq(vmInput.CallerAddr), Kesdt(seq(vmInput.Arguments[0]))) + beval(seq(vmInput.Arguments[1]))
-//@   ensures[C02,C05] err == nil ==> forall(a, addr, k, bseq, !(a == seq(vmInput.CallerAddr) && k == Kesdt(seq(vmInput.Arguments[0]))) ==> St[a][k] == old(St)[a][k])
+//@   ensures[C02,C05,C15] err == nil ==> forall(a, addr, k, bseq, !(a == seq(vmInput.CallerAddr) && k == Kesdt(seq(vmInput.Arguments[0]))) ==> St[a][k] == old(St)[a][k])
 //@   ensures[C04] err == nil && !readFailed && !vmInput.ReturnCallAfterError && seq(vmInput.CallerAddr) != seq(vmcommon.ESDTSCAddress) ==> !frozen(old(St), seq(vmInput.CallerAddr), Kesdt(seq(vmInput.Arguments[0]))) && !paused(old(St), Kesdt(seq(vmInput.Arguments[0])))
 //@   ensures[C15] err == nil ==> WFvalues(St)
 //@   modifies St, failed, readFailed, loadFailed
@@ -55,7 +55,7 @@ import (
 //@   ensures[C17] err == nil ==> failed == old(failed)
 //@   ensures[C03] err == nil && !readFailed ==> hasRole(old(St), seq(vmInput.CallerAddr), seq(vmInput.Arguments[0]), "ESDTRoleLocalBurn")
 //@   ensures[C02] err == nil && !readFailed ==> val(St, seq(vmInput.CallerAddr), Kesdt(seq(vmInput.Arguments[0]))) == val(old(St), seq(vmInput.CallerAddr), Kesdt(seq(vmInput.Arguments[0]))) - beval(seq(vmInput.Arguments[1])) && val(St, seq(vmInput.CallerAddr), Kesdt(seq(vmInput.Arguments[0]))) >= 0
-//@   ensures[C02,C05] err == nil ==> onlyChanged(St, old(St), seq(vmInput.CallerAddr), Kesdt(seq(vmInput.Arguments[0])))
+//@   ensures[C02,C05,C15] err == nil ==> onlyChanged(St, old(St), seq(vmInput.CallerAddr), Kesdt(seq(vmInput.Arguments[0])))
 //@   ensures[C04] err == nil && !readFailed && !vmInput.ReturnCallAfterError && seq(vmInput.CallerAddr) != ESDTSC() ==> !frozen(old(St), seq(vmInput.CallerAddr), Kesdt(seq(vmInput.Arguments[0]))) && !paused(old(St), Kesdt(seq(vmInput.Arguments[0])))
 //@   ensures[C15] err == nil ==> WFvalues(St)
 //@   modifies St, failed, readFailed, loadFailed
@@ -73,7 +73,7 @@ import (
 //@   ensures[C16] err == nil ==> out.GasRemaining + fwdGas(out, seq(vmInput.RecipientAddr)) == vmInput.GasProvided - e.funcGasCost
 //@   ensures[C17] err == nil ==> failed == old(failed)
 //@   ensures[C02] err == nil && !readFailed ==> val(St, seq(vmInput.CallerAddr), Kesdt(seq(vmInput.Arguments[0]))) == val(old(St), seq(vmInput.CallerAddr), Kesdt(seq(vmInput.Arguments[0]))) - beval(seq(vmInput.Arguments[1])) && val(St, seq(vmInput.CallerAddr), Kesdt(seq(vmInput.Arguments[0]))) >= 0
-//@   ensures[C02,C05] err == nil ==> onlyChanged(St, old(St), seq(vmInput.CallerAddr), Kesdt(seq(vmInput.Arguments[0])))
+//@   ensures[C02,C05,C15] err == nil ==> onlyChanged(St, old(St), seq(vmInput.CallerAddr), Kesdt(seq(vmInput.Arguments[0])))
 //@   ensures[C04] err == nil && !readFailed && !vmInput.ReturnCallAfterError && seq(vmInput.CallerAddr) != ESDTSC() ==> !frozen(old(St), seq(vmInput.CallerAddr), Kesdt(seq(vmInput.Arguments[0]))) && !paused(old(St), Kesdt(seq(vmInput.Arguments[0])))
 //@   ensures[C15] err == nil ==> WFvalues(St)
 //@   modifies St, failed, readFailed, loadFailed
@@ -90,7 +90,7 @@ import (
 //@   ensures[C06] err == nil ==> out.GasRemaining == 0 && out.OutputAccounts == nil
 //@   ensures[C17] err == nil ==> failed == old(failed)
 //@   ensures[C03] err == nil ==> seq(vmInput.CallerAddr) == ESDTSC()
-//@   ensures[C02,C05] err == nil ==> onlyChanged(St, old(St), seq(vmInput.RecipientAddr), Kesdt(seq(vmInput.Arguments[0])))
+//@   ensures[C02,C05,C15] err == nil ==> onlyChanged(St, old(St), seq(vmInput.RecipientAddr), Kesdt(seq(vmInput.Arguments[0])))
 //@   ensures[C02] err == nil && !readFailed && e.wipe ==> frozen(old(St), seq(vmInput.RecipientAddr), Kesdt(seq(vmInput.Arguments[0]))) && len(St[seq(vmInput.RecipientAddr)][Kesdt(seq(vmInput.Arguments[0]))]) == 0
 //@   ensures[C02,C04] err == nil && !readFailed && !e.wipe ==> val(St, seq(vmInput.RecipientAddr), Kesdt(seq(vmInput.Arguments[0]))) == val(old(St), seq(vmInput.RecipientAddr), Kesdt(seq(vmInput.Arguments[0])))
 //@   ensures[C04] err == nil && !readFailed && !e.wipe ==> frozen(St, seq(vmInput.RecipientAddr), Kesdt(seq(vmInput.Arguments[0]))) == e.freeze
@@ -108,7 +108,7 @@ import (
 //@   ensures[C06] err == nil ==> out.GasRemaining == 0 && out.OutputAccounts == nil
 //@   ensures[C17] err == nil ==> failed == old(failed)
 //@   ensures[C03] err == nil ==> seq(vmInput.CallerAddr) == ESDTSC()
-//@   ensures[C02,C05] err == nil ==> onlyChanged(St, old(St), SYS(), Kesdt(seq(vmInput.Arguments[0])))
+//@   ensures[C02,C05,C15] err == nil ==> onlyChanged(St, old(St), SYS(), Kesdt(seq(vmInput.Arguments[0])))
 //@   ensures[C04] err == nil ==> paused(St, Kesdt(seq(vmInput.Arguments[0]))) == e.pause
 //@   modifies St, failed, readFailed, loadFailed
 
@@ -146,7 +146,7 @@ import (
 //@   ensures[C02] err == nil && !readFailed ==> n > 0 && len(old(St)[snd][Knft(tok, n)]) != 0
 //@   ensures[C02] err == nil && !readFailed && dHasMeta(old(St)[snd][Knft(tok, n)]) && dMNonce(old(St)[snd][Knft(tok, n)]) == n ==> val(St, snd, Knft(tok, n)) == val(old(St), snd, Knft(tok, n)) + beval(seq(vmInput.Arguments[2])) && onlyChanged(St, old(St), snd, Knft(tok, n))
 //@   ensures[C02,kf:F8b] err == nil && !readFailed && !(dHasMeta(old(St)[snd][Knft(tok, n)]) && dMNonce(old(St)[snd][Knft(tok, n)]) == n) ==> val(St, snd, Knft(tok, n)) == val(old(St), snd, Knft(tok, n)) + beval(seq(vmInput.Arguments[2])) && onlyChanged(St, old(St), snd, Knft(tok, n))
-//@   ensures[C05] err == nil && !readFailed ==> onlyChanged(St, old(St), snd, Knft(tok, ite(dHasMeta(old(St)[snd][Knft(tok, n)]), dMNonce(old(St)[snd][Knft(tok, n)]), 0)))
+//@   ensures[C05,C15] err == nil && !readFailed ==> onlyChanged(St, old(St), snd, Knft(tok, ite(dHasMeta(old(St)[snd][Knft(tok, n)]), dMNonce(old(St)[snd][Knft(tok, n)]), 0)))
 //@   ensures[C04] err == nil && !readFailed && !vmInput.ReturnCallAfterError && snd != ESDTSC() ==> !frozen(old(St), snd, Knft(tok, n)) && !paused(old(St), Kesdt(tok))
 //@   ensures[C15] err == nil ==> WFvalues(St)
 //@   modifies St, failed, readFailed, loadFailed
@@ -170,7 +170,7 @@ import (
 //@   ensures[C02] err == nil && !readFailed ==> n > 0 && len(old(St)[snd][Knft(tok, n)]) != 0 && val(old(St), snd, Knft(tok, n)) >= beval(seq(vmInput.Arguments[2]))
 //@   ensures[C02] err == nil && !readFailed && dHasMeta(old(St)[snd][Knft(tok, n)]) && dMNonce(old(St)[snd][Knft(tok, n)]) == n ==> val(St, snd, Knft(tok, n)) == val(old(St), snd, Knft(tok, n)) - beval(seq(vmInput.Arguments[2])) && onlyChanged(St, old(St), snd, Knft(tok, n))
 //@   ensures[C02,kf:F8b] err == nil && !readFailed && !(dHasMeta(old(St)[snd][Knft(tok, n)]) && dMNonce(old(St)[snd][Knft(tok, n)]) == n) ==> val(St, snd, Knft(tok, n)) == val(old(St), snd, Knft(tok, n)) - beval(seq(vmInput.Arguments[2])) && onlyChanged(St, old(St), snd, Knft(tok, n))
-//@   ensures[C05] err == nil && !readFailed ==> onlyChanged(St, old(St), snd, Knft(tok, ite(dHasMeta(old(St)[snd][Knft(tok, n)]), dMNonce(old(St)[snd][Knft(tok, n)]), 0)))
+//@   ensures[C05,C15] err == nil && !readFailed ==> onlyChanged(St, old(St), snd, Knft(tok, ite(dHasMeta(old(St)[snd][Knft(tok, n)]), dMNonce(old(St)[snd][Knft(tok, n)]), 0)))
 //@   ensures[C04] err == nil && !readFailed && !vmInput.ReturnCallAfterError && snd != ESDTSC() ==> !frozen(old(St), snd, Knft(tok, n)) && !paused(old(St), Kesdt(tok))
 //@   ensures[C15] err == nil ==> WFvalues(St)
 //@   modifies St, failed, readFailed, loadFailed
@@ -195,7 +195,7 @@ import (
 //@   ensures[C03] err == nil && !readFailed ==> hasRole(old(St), snd, tok, "ESDTRoleNFTUpdateAttributes")
 //@   ensures[C02] err == nil && !readFailed && dHasMeta(old0) && dMNonce(old0) == n ==> val(St, snd, Knft(tok, n)) == val(old(St), snd, Knft(tok, n)) && onlyChanged(St, old(St), snd, Knft(tok, n))
 //@   ensures[C08] err == nil && !readFailed && dHasMeta(old0) && dMNonce(old0) == n && val(old(St), snd, Knft(tok, n)) > 0 ==> dMAttrs(St[snd][Knft(tok, n)]) == seq(vmInput.Arguments[2]) && dMName(St[snd][Knft(tok, n)]) == dMName(old0) && dMCreator(St[snd][Knft(tok, n)]) == dMCreator(old0) && dMRoy(St[snd][Knft(tok, n)]) == dMRoy(old0) && dMHash(St[snd][Knft(tok, n)]) == dMHash(old0) && dMNonce(St[snd][Knft(tok, n)]) == n && dType(St[snd][Knft(tok, n)]) == dType(old0) && dProps(St[snd][Knft(tok, n)]) == dProps(old0)
-//@   ensures[C05] err == nil && !readFailed ==> onlyChanged(St, old(St), snd, Knft(tok, ite(dHasMeta(old0), dMNonce(old0), 0)))
+//@   ensures[C05,C15] err == nil && !readFailed ==> onlyChanged(St, old(St), snd, Knft(tok, ite(dHasMeta(old0), dMNonce(old0), 0)))
 //@   ensures[C04] err == nil && !readFailed && !vmInput.ReturnCallAfterError && snd != ESDTSC() ==> !frozen(old(St), snd, Knft(tok, n)) && !paused(old(St), Kesdt(tok))
 //@   ensures[C15] err == nil ==> WFvalues(St)
 //@   modifies St, failed, readFailed, loadFailed
@@ -228,7 +228,7 @@ import (
 //@   ensures[C02] err == nil && !readFailed && dHasMeta(old0) && dMNonce(old0) == n ==> val(St, snd, Knft(tok, n)) == val(old(St), snd, Knft(tok, n)) && onlyChanged(St, old(St), snd, Knft(tok, n))
 //@   ensures[C08] err == nil && !readFailed && dHasMeta(old0) && dMNonce(old0) == n && val(old(St), snd, Knft(tok, n)) > 0 ==> dMAttrs(St[snd][Knft(tok, n)]) == dMAttrs(old0) && dMName(St[snd][Knft(tok, n)]) == dMName(old0) && dMCreator(St[snd][Knft(tok, n)]) == dMCreator(old0) && dMRoy(St[snd][Knft(tok, n)]) == dMRoy(old0) && dMHash(St[snd][Knft(tok, n)]) == dMHash(old0) && dMNonce(St[snd][Knft(tok, n)]) == n && dType(St[snd][Knft(tok, n)]) == dType(old0) && dProps(St[snd][Knft(tok, n)]) == dProps(old0)
 //@   ensures[C08] err == nil && !readFailed && dHasMeta(old0) && dMNonce(old0) == n && val(old(St), snd, Knft(tok, n)) > 0 ==> llen(dMURIs(St[snd][Knft(tok, n)])) == llen(dMURIs(old0)) + len(vmInput.Arguments) - 2 && forall(i, int, 0 <= i && i < llen(dMURIs(old0)) ==> lnth(dMURIs(St[snd][Knft(tok, n)]), i) == lnth(dMURIs(old0), i)) && forall(i, int, 2 <= i && i < len(vmInput.Arguments) ==> lnth(dMURIs(St[snd][Knft(tok, n)]), llen(dMURIs(old0)) + i - 2) == seq(vmInput.Arguments[i]))
-//@   ensures[C05] err == nil && !readFailed ==> onlyChanged(St, old(St), snd, Knft(tok, ite(dHasMeta(old0), dMNonce(old0), 0)))
+//@   ensures[C05,C15] err == nil && !readFailed ==> onlyChanged(St, old(St), snd, Knft(tok, ite(dHasMeta(old0), dMNonce(old0), 0)))
 //@   ensures[C04] err == nil && !readFailed && !vmInput.ReturnCallAfterError && snd != ESDTSC() ==> !frozen(old(St), snd, Knft(tok, n)) && !paused(old(St), Kesdt(tok))
 //@   ensures[C15] err == nil ==> WFvalues(St)
 //@   modifies St, failed, readFailed, loadFailed
@@ -309,7 +309,7 @@ import (
 //@   ensures[C03] err == nil && !readFailed ==> hasRole(old(St), snd, tok, "ESDTRoleNFTCreate") && (q > 1 ==> hasRole(old(St), snd, tok, "ESDTRoleNFTAddQuantity"))
 //@   ensures[C07] err == nil ==> len(out.ReturnData) == 1 && seq(out.ReturnData[0]) == be(c + 1) && St[snd][Knonce(tok)] == be(c + 1)
 //@   ensures[C02,C07] err == nil ==> q > 0 && len(St[snd][Knft(tok, c + 1)]) != 0 && dVal(St[snd][Knft(tok, c + 1)]) == q && !dValNil(St[snd][Knft(tok, c + 1)])
-//@   ensures[C02,C05] err == nil ==> forall(a, addr, k, bseq, !(a == snd && (k == Knft(tok, c + 1) || k == Knonce(tok))) ==> St[a][k] == old(St)[a][k])
+//@   ensures[C02,C05,C15] err == nil ==> forall(a, addr, k, bseq, !(a == snd && (k == Knft(tok, c + 1) || k == Knonce(tok))) ==> St[a][k] == old(St)[a][k])
 //@   ensures[C08] err == nil ==> dHasMeta(St[snd][Knft(tok, c + 1)]) && dMNonce(St[snd][Knft(tok, c + 1)]) == c + 1 && dMName(St[snd][Knft(tok, c + 1)]) == seq(vmInput.Arguments[2]) && dMCreator(St[snd][Knft(tok, c + 1)]) == snd && dMRoy(St[snd][Knft(tok, c + 1)]) <= 10000 && dMRoy(St[snd][Knft(tok, c + 1)]) == (beval(seq(vmInput.Arguments[3])) % 18446744073709551616) % 4294967296 && dMHash(St[snd][Knft(tok, c + 1)]) == seq(vmInput.Arguments[4]) && dMAttrs(St[snd][Knft(tok, c + 1)]) == seq(vmInput.Arguments[5]) && dType(St[snd][Knft(tok, c + 1)]) == 1
 //@   ensures[C08] err == nil ==> llen(dMURIs(St[snd][Knft(tok, c + 1)])) == len(vmInput.Arguments) - 6 && forall(i, int, 6 <= i && i < len(vmInput.Arguments) ==> lnth(dMURIs(St[snd][Knft(tok, c + 1)]), i - 6) == seq(vmInput.Arguments[i]))
 //@   ensures[C04] err == nil && !readFailed && !vmInput.ReturnCallAfterError && snd != ESDTSC() ==> !paused(old(St), Kesdt(tok)) && !paused(old(St), Knft(tok, c + 1))
@@ -380,7 +380,7 @@ func lemmaConsecutiveCreates(e *esdtNFTCreate, acnt vmcommon.UserAccountHandler,
 //@   ensures[C06] err == nil ==> out.GasRemaining == 0 && out.OutputAccounts == nil
 //@   ensures[C17] err == nil ==> failed == old(failed)
 //@   ensures[C03] err == nil ==> seq(vmInput.CallerAddr) == ESDTSC()
-//@   ensures[C02,C03,C05] err == nil ==> onlyChanged(St, old(St), dst, Krole(tok))
+//@   ensures[C02,C03,C05,C15] err == nil ==> onlyChanged(St, old(St), dst, Krole(tok))
 //@   ensures[C03,C15] err == nil && !readFailed && !e.set && rolesNoDup(old(St), dst, tok) ==> rolesNoDup(St, dst, tok) && forall(t, int, trigger(seq(vmInput.Arguments[1:][t])), 0 <= t && t < len(vmInput.Arguments) - 1 ==> !hasRole(St, dst, tok, seq(vmInput.Arguments[1:][t])))
 //@   ensures[C03] err == nil && !readFailed && e.set ==> llen(dRoles(St[dst][Krole(tok)])) == ite(len(old(St)[dst][Krole(tok)]) == 0, 0, llen(dRoles(old(St)[dst][Krole(tok)]))) + len(vmInput.Arguments) - 1 && forall(i, int, 1 <= i && i < len(vmInput.Arguments) ==> lnth(dRoles(St[dst][Krole(tok)]), llen(dRoles(St[dst][Krole(tok)])) - len(vmInput.Arguments) + i) == seq(vmInput.Arguments[i]))
 //@   modifies St, failed, readFailed
@@ -401,7 +401,7 @@ func lemmaConsecutiveCreates(e *esdtNFTCreate, acnt vmcommon.UserAccountHandler,
 //@   ensures[C10] isErr(err, ErrInvalidArguments) ==> failed || readFailed
 //@   ensures[C02,C07,C15] err == nil ==> St[addr(acnt)][Knonce(seq(tokenID))] == be(nonce) && failed == old(failed)
 //@   ensures[C17] err != nil ==> failed
-//@   ensures[C05] onlyChanged(St, old(St), addr(acnt), Knonce(seq(tokenID)))
+//@   ensures[C05,C15] onlyChanged(St, old(St), addr(acnt), Knonce(seq(tokenID)))
 //@   modifies St, failed
 
 //@ func (e *esdtNFTCreateRoleTransfer) deleteCreateRoleFromAccount
@@ -410,7 +410,7 @@ func lemmaConsecutiveCreates(e *esdtNFTCreate, acnt vmcommon.UserAccountHandler,
 //@   ensures[C10] isErr(err, ErrInvalidArguments) ==> failed || readFailed
 //@   ensures[C07,C15] err == nil && !readFailed && (len(old(St)[addr(acntDst)][seq(esdtTokenRoleKey)]) == 0 || lnodup(dRoles(old(St)[addr(acntDst)][seq(esdtTokenRoleKey)]))) ==> len(St[addr(acntDst)][seq(esdtTokenRoleKey)]) == 0 || (lnodup(dRoles(St[addr(acntDst)][seq(esdtTokenRoleKey)])) && labsent(dRoles(St[addr(acntDst)][seq(esdtTokenRoleKey)]), "ESDTRoleNFTCreate"))
 //@   ensures[C17] err == nil ==> failed == old(failed)
-//@   ensures[C05] onlyChanged(St, old(St), addr(acntDst), seq(esdtTokenRoleKey))
+//@   ensures[C05,C15] onlyChanged(St, old(St), addr(acntDst), seq(esdtTokenRoleKey))
 //@   ensures old(readFailed) ==> readFailed
 //@   modifies St, failed, readFailed
 
@@ -422,7 +422,7 @@ func lemmaConsecutiveCreates(e *esdtNFTCreate, acnt vmcommon.UserAccountHandler,
 //@   ensures[C07] err == nil && !readFailed ==> len(St[addr(acntDst)][seq(esdtTokenRoleKey)]) != 0
 //@   ensures[C07] err == nil && !readFailed && St == old(St) ==> !labsent(dRoles(St[addr(acntDst)][seq(esdtTokenRoleKey)]), "ESDTRoleNFTCreate")
 //@   ensures[C07] err == nil && !readFailed && St != old(St) ==> !labsent(dRoles(St[addr(acntDst)][seq(esdtTokenRoleKey)]), "ESDTRoleNFTCreate")
-//@   ensures[C05] onlyChanged(St, old(St), addr(acntDst), seq(esdtTokenRoleKey))
+//@   ensures[C05,C15] onlyChanged(St, old(St), addr(acntDst), seq(esdtTokenRoleKey))
 //@   ensures old(readFailed) ==> readFailed
 //@   modifies St, failed, readFailed
 
@@ -446,7 +446,7 @@ func lemmaConsecutiveCreates(e *esdtNFTCreate, acnt vmcommon.UserAccountHandler,
 //@   ensures[C07,C10] err == nil && seq(vmInput.CallerAddr) == ESDTSC() ==> seq(out.OutputAccounts[nxt].OutputTransfers[0].Data) == ((("ESDTNFTCreateRoleTransfer" + "@") + hex(tok)) + "@") + hex(be(c))
 //@   ensures[C07] err == nil && !readFailed && seq(vmInput.CallerAddr) == ESDTSC() && shardOf(nxt) == selfShard ==> St[nxt][Knonce(tok)] == be(c) && len(St[nxt][Krole(tok)]) != 0 && !labsent(dRoles(St[nxt][Krole(tok)]), "ESDTRoleNFTCreate")
 //@   ensures[C07] err == nil && !readFailed && seq(vmInput.CallerAddr) != ESDTSC() ==> St[dst][Knonce(tok)] == be(beval(nxt) % 18446744073709551616) && len(St[dst][Krole(tok)]) != 0 && !labsent(dRoles(St[dst][Krole(tok)]), "ESDTRoleNFTCreate")
-//@   ensures[C02,C05,C07] err == nil ==> forall(a, addr, k, bseq, !((a == dst || (a == nxt && seq(vmInput.CallerAddr) == ESDTSC() && shardOf(nxt) == selfShard)) && (k == Knonce(tok) || k == Krole(tok))) ==> St[a][k] == old(St)[a][k])
+//@   ensures[C02,C05,C07,C15] err == nil ==> forall(a, addr, k, bseq, !((a == dst || (a == nxt && seq(vmInput.CallerAddr) == ESDTSC() && shardOf(nxt) == selfShard)) && (k == Knonce(tok) || k == Krole(tok))) ==> St[a][k] == old(St)[a][k])
 //@   modifies St, failed, readFailed, loadFailed
 
 // lemmaHandOverThenCreate (C07, the hand-over step of "never below any nonce ever issued"): after a same-shard
@@ -594,7 +594,7 @@ func lemmaHandOverThenCreate(rt *esdtNFTCreateRoleTransfer, cr *esdtNFTCreate, o
 //@   ensures[C01,C02] err == nil && !readFailed && senderSide && dMNonce(old0) == n && shardOf(a3) != selfShard ==> onlyChanged(St, old(St), snd, Knft(tok, n))
 //@   ensures[C01,C02,kf:F8b] err == nil && !readFailed && senderSide && dMNonce(old0) != n ==> val(St, snd, Knft(tok, n)) == val(old(St), snd, Knft(tok, n)) - q
 //@   ensures[C01,C02] err == nil && !readFailed && !senderSide ==> val(St, rcv, Knft(tok, dMNonce(a3))) == val(old(St), rcv, Knft(tok, dMNonce(a3))) + dVal(a3) && onlyChanged(St, old(St), rcv, Knft(tok, dMNonce(a3)))
-//@   ensures[C05] err == nil && !readFailed && senderSide ==> onlyChanged2(St, old(St), snd, Knft(tok, dMNonce(old0)), a3, Knft(tok, dMNonce(old0)))
+//@   ensures[C05,C15] err == nil && !readFailed && senderSide ==> onlyChanged2(St, old(St), snd, Knft(tok, dMNonce(old0)), a3, Knft(tok, dMNonce(old0)))
 //@   ensures[C08] err == nil && !readFailed && senderSide && dMNonce(old0) == n && shardOf(a3) == selfShard && val(old(St), a3, Knft(tok, n)) + q > 0 ==> sameMeta(St[a3][Knft(tok, n)], old0)
 //@   ensures[C08] err == nil && !readFailed && senderSide && shardOf(a3) == selfShard && len(old(St)[a3][Knft(tok, dMNonce(old0))]) != 0 && dHasMeta(old(St)[a3][Knft(tok, dMNonce(old0))]) ==> dMHash(old(St)[a3][Knft(tok, dMNonce(old0))]) == dMHash(old0)
 //@   ensures[C08] err == nil && !readFailed && !senderSide && val(old(St), rcv, Knft(tok, dMNonce(a3))) + dVal(a3) > 0 ==> sameMeta(St[rcv][Knft(tok, dMNonce(a3))], a3)
@@ -624,7 +624,7 @@ func lemmaHandOverThenCreate(rt *esdtNFTCreateRoleTransfer, cr *esdtNFTCreate, o
 //@   ensures old(readFailed) ==> readFailed
 //@   ensures[C09] err == nil && mustVerifyPayable ==> payable(dstA)
 //@   ensures[C01,C02] err == nil && !readFailed ==> val(St, dstA, Kd) == val(old(St), dstA, Kd) + v0
-//@   ensures[C01,C02,C05] onlyChanged(St, old(St), dstA, Kd)
+//@   ensures[C01,C02,C05,C15] onlyChanged(St, old(St), dstA, Kd)
 //@   ensures[C04] err == nil && !readFailed && !isReturnCallWithError && dstA != ESDTSC() ==> !frozen(old(St), dstA, Kd) && !paused(old(St), seq(esdtTokenKey)) && !paused(old(St), Kd)
 //@   ensures[C03] err == nil && !readFailed && !isReturnCallWithError && dstA != ESDTSC() && !frozenProps(seq(esdtDataToTransfer.Properties)) ==> frozen(St, dstA, Kd) == frozen(old(St), dstA, Kd)
 //@   ensures[C03,kf:F12] err == nil && !readFailed && (isReturnCallWithError || dstA == ESDTSC()) ==> frozen(St, dstA, Kd) == frozen(old(St), dstA, Kd)
@@ -653,7 +653,7 @@ func lemmaHandOverThenCreate(rt *esdtNFTCreateRoleTransfer, cr *esdtNFTCreate, o
 //@   ensures[C01,C02] err == nil && !readFailed ==> q > 0 && len(old0) != 0 && val(old(St), snd, Ks) >= q
 //@   ensures[C01,C02] err == nil && !readFailed && ite(dHasMeta(old0), dMNonce(old0), 0) == nonce ==> val(St, snd, Ks) == val(old(St), snd, Ks) - q && (!isNil(acntDst) ==> val(St, dstA, Ks) == val(old(St), dstA, Ks) + q) && onlyChanged2(St, old(St), snd, Ks, dstA, Ks) && (isNil(acntDst) ==> onlyChanged(St, old(St), snd, Ks))
 //@   ensures[C01,C02,kf:F8b] err == nil && !readFailed && ite(dHasMeta(old0), dMNonce(old0), 0) != nonce ==> val(St, snd, Ks) == val(old(St), snd, Ks) - q
-//@   ensures[C05] forall(a, addr, k, bseq, St[a][k] != old(St)[a][k] ==> (a == snd || a == dstA) && isTokKey(k) && k[0:len(tok) + 10] == Kesdt(tok))
+//@   ensures[C05,C15] forall(a, addr, k, bseq, St[a][k] != old(St)[a][k] ==> (a == snd || a == dstA) && isTokKey(k) && k[0:len(tok) + 10] == Kesdt(tok))
 //@   ensures[C04] err == nil && !readFailed && !isReturnCallWithError && snd != ESDTSC() ==> !frozen(old(St), snd, Ks) && !paused(old(St), Kesdt(tok))
 //@   ensures[C04] err == nil && !readFailed && !isReturnCallWithError && !isNil(acntDst) && dstA != ESDTSC() && snd != SYS() ==> !frozen(old(St), dstA, Knft(tok, ite(dHasMeta(old0), dMNonce(old0), 0))) && !paused(old(St), Kesdt(tok))
 //@   ensures[C08] err == nil && !readFailed && !isNil(acntDst) && ite(dHasMeta(old0), dMNonce(old0), 0) == nonce && nonce != 0 ==> sameMeta(St[dstA][Ks], old0)
@@ -709,7 +709,7 @@ func lemmaHandOverThenCreate(rt *esdtNFTCreateRoleTransfer, cr *esdtNFTCreate, o
 //@   ensures[C16] err == nil ==> out.GasRemaining + fwdGas(out, dstA) <= vmInput.GasProvided - nT * e.funcGasCost && nT > 0
 //@   ensures[C09] err == nil ==> len(dstA) == len(snd) && dstA != snd && shardOf(dstA) != 4294967295
 //@   ensures[C09] err == nil && shardOf(dstA) == selfShard && mustVerify(vmInput, 3 * nT + 2) ==> payable(dstA)
-//@   ensures[C02,C05] forall(a, addr, k, bseq, St[a][k] != old(St)[a][k] ==> (a == snd || a == dstA) && isTokKey(k))
+//@   ensures[C02,C05,C15] forall(a, addr, k, bseq, St[a][k] != old(St)[a][k] ==> (a == snd || a == dstA) && isTokKey(k))
 //@   ensures[C15] err == nil ==> WFvalues(St)
 //@   ensures old(readFailed) ==> readFailed
 //@   modifies St, failed, readFailed, loadFailed
@@ -740,7 +740,7 @@ func lemmaHandOverThenCreate(rt *esdtNFTCreateRoleTransfer, cr *esdtNFTCreate, o
 //@   ensures[C01,C10] !senderSide && isErr(err, ErrInvalidArguments) && !failed && !readFailed ==> nD == 0 || nD > len(vmInput.Arguments) || len(vmInput.Arguments) < 3 * nD + 1 || len(vmInput.Arguments) < 2
 //@   ensures[C09] err == nil && !senderSide && St != old(St) && mustVerify(vmInput, 3 * nD + 1) ==> payable(rcv)
 //@   ensures[C09] err == nil && senderSide ==> shardOf(seq(vmInput.Arguments[0])) != 4294967295 && seq(vmInput.Arguments[0]) != snd && len(vmInput.Arguments[0]) == len(vmInput.CallerAddr)
-//@   ensures[C02,C05] forall(a, addr, k, bseq, St[a][k] != old(St)[a][k] ==> ((senderSide && (a == snd || a == seq(vmInput.Arguments[0]))) || (!senderSide && a == rcv)) && isTokKey(k))
+//@   ensures[C02,C05,C15] forall(a, addr, k, bseq, St[a][k] != old(St)[a][k] ==> ((senderSide && (a == snd || a == seq(vmInput.Arguments[0]))) || (!senderSide && a == rcv)) && isTokKey(k))
 //@   ensures[C15] err == nil ==> WFvalues(St)
 //@   modifies St, failed, readFailed, loadFailed
 
@@ -1052,6 +1052,23 @@ func lemmaFlagBytesRoundTrip(paused bool, frozen bool, b []byte) (bool, bool, []
 //@   ensures[C18,C16] err == nil ==> regTyp(payload(c), "ESDTNFTUpdateAttributes") == typeid("*builtInFunctions.esdtNFTupdate") && ptr(regVal(payload(c), "ESDTNFTUpdateAttributes"), "*builtInFunctions.esdtNFTupdate").funcGasCost == b.gasConfig.BuiltInCost.ESDTNFTUpdateAttributes && ptr(regVal(payload(c), "ESDTNFTUpdateAttributes"), "*builtInFunctions.esdtNFTupdate").gasConfig.StorePerByte == b.gasConfig.BaseOperationCost.StorePerByte && ptr(regVal(payload(c), "ESDTNFTUpdateAttributes"), "*builtInFunctions.esdtNFTupdate").baseEnabled.activationEpoch == b.esdtNFTImprovementV1ActivationEpoch
 //@   ensures[C18,C16] err == nil ==> regTyp(payload(c), "ESDTNFTAddURI") == typeid("*builtInFunctions.esdtNFTAddUri") && ptr(regVal(payload(c), "ESDTNFTAddURI"), "*builtInFunctions.esdtNFTAddUri").funcGasCost == b.gasConfig.BuiltInCost.ESDTNFTAddURI && ptr(regVal(payload(c), "ESDTNFTAddURI"), "*builtInFunctions.esdtNFTAddUri").gasConfig.StorePerByte == b.gasConfig.BaseOperationCost.StorePerByte && ptr(regVal(payload(c), "ESDTNFTAddURI"), "*builtInFunctions.esdtNFTAddUri").baseEnabled.activationEpoch == b.esdtNFTImprovementV1ActivationEpoch
 //@   ensures[C18,C16] err == nil ==> regTyp(payload(c), "MultiESDTNFTTransfer") == typeid("*builtInFunctions.esdtNFTMultiTransfer") && ptr(regVal(payload(c), "MultiESDTNFTTransfer"), "*builtInFunctions.esdtNFTMultiTransfer").funcGasCost == b.gasConfig.BuiltInCost.ESDTNFTMultiTransfer && ptr(regVal(payload(c), "MultiESDTNFTTransfer"), "*builtInFunctions.esdtNFTMultiTransfer").gasConfig.DataCopyPerByte == b.gasConfig.BaseOperationCost.DataCopyPerByte && ptr(regVal(payload(c), "MultiESDTNFTTransfer"), "*builtInFunctions.esdtNFTMultiTransfer").baseEnabled.activationEpoch == b.esdtNFTImprovementV1ActivationEpoch
+//@   ensures[C13,C18,C19] err == nil ==> esdtPrefix(ptr(regVal(payload(c), "ESDTPause"), "*builtInFunctions.esdtPause").keyPrefix)
+//@   ensures[C13,C18,C19] err == nil ==> esdtPrefix(ptr(regVal(payload(c), "ESDTUnPause"), "*builtInFunctions.esdtPause").keyPrefix)
+//@   ensures[C13,C18,C19] err == nil ==> esdtPrefix(ptr(regVal(payload(c), "ESDTTransfer"), "*builtInFunctions.esdtTransfer").keyPrefix)
+//@   ensures[C13,C18,C19] err == nil ==> esdtPrefix(ptr(regVal(payload(c), "ESDTBurn"), "*builtInFunctions.esdtBurn").keyPrefix)
+//@   ensures[C13,C18,C19] err == nil ==> esdtPrefix(ptr(regVal(payload(c), "ESDTFreeze"), "*builtInFunctions.esdtFreezeWipe").keyPrefix)
+//@   ensures[C13,C18,C19] err == nil ==> esdtPrefix(ptr(regVal(payload(c), "ESDTUnFreeze"), "*builtInFunctions.esdtFreezeWipe").keyPrefix)
+//@   ensures[C13,C18,C19] err == nil ==> esdtPrefix(ptr(regVal(payload(c), "ESDTWipe"), "*builtInFunctions.esdtFreezeWipe").keyPrefix)
+//@   ensures[C13,C18,C19] err == nil ==> esdtPrefix(ptr(regVal(payload(c), "ESDTLocalBurn"), "*builtInFunctions.esdtLocalBurn").keyPrefix)
+//@   ensures[C13,C18,C19] err == nil ==> esdtPrefix(ptr(regVal(payload(c), "ESDTLocalMint"), "*builtInFunctions.esdtLocalMint").keyPrefix)
+//@   ensures[C13,C18,C19] err == nil ==> esdtPrefix(ptr(regVal(payload(c), "ESDTNFTAddQuantity"), "*builtInFunctions.esdtNFTAddQuantity").keyPrefix)
+//@   ensures[C13,C18,C19] err == nil ==> esdtPrefix(ptr(regVal(payload(c), "ESDTNFTBurn"), "*builtInFunctions.esdtNFTBurn").keyPrefix)
+//@   ensures[C13,C18,C19] err == nil ==> esdtPrefix(ptr(regVal(payload(c), "ESDTNFTCreate"), "*builtInFunctions.esdtNFTCreate").keyPrefix)
+//@   ensures[C13,C18,C19] err == nil ==> esdtPrefix(ptr(regVal(payload(c), "ESDTNFTTransfer"), "*builtInFunctions.esdtNFTTransfer").keyPrefix)
+//@   ensures[C13,C18,C19] err == nil ==> esdtPrefix(ptr(regVal(payload(c), "ESDTNFTCreateRoleTransfer"), "*builtInFunctions.esdtNFTCreateRoleTransfer").keyPrefix)
+//@   ensures[C13,C18,C19] err == nil ==> esdtPrefix(ptr(regVal(payload(c), "ESDTNFTUpdateAttributes"), "*builtInFunctions.esdtNFTupdate").keyPrefix)
+//@   ensures[C13,C18,C19] err == nil ==> esdtPrefix(ptr(regVal(payload(c), "ESDTNFTAddURI"), "*builtInFunctions.esdtNFTAddUri").keyPrefix)
+//@   ensures[C13,C18,C19] err == nil ==> esdtPrefix(ptr(regVal(payload(c), "MultiESDTNFTTransfer"), "*builtInFunctions.esdtNFTMultiTransfer").keyPrefix)
 //@   ensures[C18,C16] err == nil ==> regOK(payload(c)) && forall(k, bseq, regHas(payload(c), k) ==> implements(regTyp(payload(c), k), typeid("vmcommon.BuiltinFunction")) && regVal(payload(c), k) != 0)
 //@   modifies b.builtInFunctions, new(builtInFunctions.functionContainer), new(container.MutexMap), newmap(type:container.MutexMap.values)
 
